@@ -23,6 +23,7 @@
 Require Import RIO.Base RIO.Prefix RIO.Route RIO.Tree RIO.TreeProofs RIO.TreeInst RIO.Matchers RIO.MatcherSpec RIO.PathProofs RIO.RouterSpec RIO.RouterHist RIO.RouterProofs.
 Require Import RIO.Analyses RIO.AnalysesProofs.
 Require Import RIO.Headers RIO.BodyText RIO.ActionModel RIO.Pipeline RIO.PipelineProofs RIO.EndToEnd.
+Require Import RIO.ActionSpec RIO.ActionProofs RIO.PipelineSpec.
 Close Scope N_scope.
 
 Theorem C19_project_eq_standalone : forall lower eng valid ic_host ic_path always,
@@ -139,6 +140,16 @@ Theorem C19_analysis_on_history_eq_live : forall lower eng valid ic_host ic_path
     skipped ov (example_backend example_code) skeleton.
 Proof. intros. apply analysis_of_rules_eq_live. Qed.
 
+(* the status explain / impact report, read off the contributing WINDOW of the matched rules (the reference of C05): the
+   request-phase decision of the window when there is one, otherwise its decision for the backend code the example
+   stands for *)
+Theorem C19_analysis_status_is_window_status : forall lower table rules skipped ov example_code skeleton,
+  Forall sampling_decided rules ->
+  rs_status (analysis_of_rules lower table rules skipped ov example_code skeleton)
+  = (let W := window (eligible (sort_rules rules) ov) in
+     if N.eqb (status_spec W 0) 0 then status_spec W (example_backend example_code) else status_spec W 0).
+Proof. exact analysis_status_is_window_status. Qed.
+
 (* non-vacuity: an unconditional 301 answers at request time whatever the example's backend code; a rule conditioned
    on 404 answers only when the backend says 404 *)
 Example C19_pipeline_example :
@@ -165,3 +176,4 @@ Print Assumptions C19_analysis_status.
 Print Assumptions C19_analysis_order_independent.
 Print Assumptions C19_analysis_incremental_eq_rebuilt.
 Print Assumptions C19_analysis_on_history_eq_live.
+Print Assumptions C19_analysis_status_is_window_status.
